@@ -494,8 +494,21 @@ def ledger_stats(ctx):
     n_const = len(re.findall(r",\s*ConstArg\s+_", src))
     reviewed = re.findall(r',\s*Reviewed\s+"((?:[^"]|"")*)"', src)
     known = re.findall(r',\s*Known\s+"((?:[^"]|"")*)"', src)
-    ctx.cov['ledger'] = dict(sites=n_guard + n_const + len(reviewed) + len(known), proved_guard=n_guard, constant_argument=n_const,
+    # sites decided by computation from the facts gen_sites.py emits (Gen/Sites.v site_auto)
+    try:
+        gen = open(os.path.join(vlib.COQ, 'Gen', 'Sites.v')).read()
+    except OSError:
+        gen = ''
+    auto = gen[gen.find('Definition site_auto'):]
+    n_auto_index = len(re.findall(r",\s*AIndex\s+\d+\s+\d+\)", auto))
+    n_auto_ctor = len(re.findall(r",\s*ACtor\s+\w+", auto))
+    ctx.cov['ledger'] = dict(sites=n_guard + n_const + len(reviewed) + len(known) + n_auto_index + n_auto_ctor,
+                             proved_guard_lemma=n_guard, proved_index_under_length_guard=n_auto_index,
+                             constant_argument_computed=n_auto_ctor + n_const,
                              reviewed_not_proved=len(reviewed), known_finding_not_proved=len(known))
+    ctx.cov['ledger_proved'] = n_guard + n_auto_index
+    ctx.cov['ledger_const'] = n_auto_ctor + n_const
+    ctx.cov['ledger_reviewed'] = len(reviewed)
     ctx.cov['ledger_reviewed_reasons'] = sorted(set(reviewed))
     ctx.cov['ledger_known_classes'] = sorted(set(known))
 
